@@ -14,6 +14,7 @@ use statime::observability::port::{DelayMechanism, PortDS, PortState};
 use statime_linux::metrics::exporter::{ObservableState, ProgramData};
 use statime_linux::observer::ObservableInstanceState;
 
+use crate::refcodec::{Msg, Pid, Src, Ts, T_PDELAY_REQ};
 use crate::drive::*;
 use crate::exporter::*;
 use crate::node::*;
@@ -138,6 +139,98 @@ pub fn aborted_scrape(rep: &mut Report, ctx: &mut Ctx, st: &ObservableState) {
     std::thread::sleep(Duration::from_millis(200));
 }
 
+/// "the data sets exposed for observation equal the live data sets": the mean link delay of a P2P
+/// port is live state of the port (it keeps correcting Syncs with it) and survives the port's role
+/// changes; what `port_ds()` (and with it the observation JSON and the exporter) shows must be the
+/// delay last measured, also right after the port left the slave state.
+fn p2p_link_delay_persistence(rep: &mut Report, seed: u64) {
+    use statime::observability::port::{DelayMechanism as ObsDm, PortState};
+    let replay = json!({"p2p_link_delay_seed": seed});
+    let mut rng = StdRng::seed_from_u64(seed);
+    let mut b = Build::new(5);
+    b.p2p = true;
+    b.seed = seed;
+    b.rec_reply = ReplyMode::EchoDelay;
+    let Ok(built) = b.build() else { return };
+    let mut node = built.node;
+    let mut remote = Remote::new(7, 1);
+    let (oc, op) = node.port_identity_bytes(0);
+    let own = Pid { clock: oc, port: op };
+    let responder = Src::new(clock_id(20).0, 1);
+    let clock = node.clock.clone();
+    let mut t = 3_000 * SEC;
+    let link_ns: u128 = rng.gen_range(200..2_000_000);
+    // one clean single-responder exchange measuring `link_ns`
+    let mut exchange = |node: &mut Node, t: &mut u128| -> bool {
+        *t += SEC / 4;
+        clock.lock().unwrap().set_true(*t);
+        let Ok(acts) = node.call(0, Call::DelayRequestTimer) else { return false };
+        for a in acts {
+            if let Act::SendEvent { ctx: Some(ctx), data, .. } = a {
+                let Ok(m) = Msg::decode(&data) else { continue };
+                if m.hdr.msg_type != T_PDELAY_REQ {
+                    continue;
+                }
+                let t1 = *t;
+                let t2 = t1 + (link_ns << 32);
+                let t3 = t2 + (50_000u128 << 32);
+                let t4 = t3 + (link_ns << 32);
+                if node.call(0, Call::TxTimestamp(ctx, time_from_units(t1))).is_err() {
+                    return false;
+                }
+                let ts = |u: u128| Ts { secs: ((u >> 32) / 1_000_000_000) as u64, nanos: ((u >> 32) % 1_000_000_000) as u32 };
+                let r = responder.pdelay_resp(m.hdr.seq, true, ts(t2), own, 0);
+                *t = t4;
+                clock.lock().unwrap().set_true(*t);
+                if node.call(0, Call::EventRx(r.encode(), time_from_units(t4))).is_err() {
+                    return false;
+                }
+                let f = responder.pdelay_resp_fu(m.hdr.seq, ts(t3), own, 0);
+                if node.call(0, Call::GeneralRx(f.encode())).is_err() {
+                    return false;
+                }
+            }
+        }
+        true
+    };
+    let shown = |node: &Node| -> Option<f64> {
+        match node.port_ref(0).port_ds().delay_mechanism {
+            ObsDm::P2P { mean_link_delay, .. } => Some(mean_link_delay.to_nanos()),
+            _ => None,
+        }
+    };
+    let mut judge = |rep: &mut Report, node: &Node, when: &str| {
+        rep.ev("p2p_mean_link_delay_checked");
+        match shown(node) {
+            Some(v) if (v - link_ns as f64).abs() <= 1.0 => {}
+            other => rep.violation(
+                "C19|live-state|port_ds.mean_link_delay",
+                &format!("{when}: port_ds() shows mean link delay {other:?} ns, the port measured (and keeps using) {link_ns} ns"),
+                replay.clone(),
+            ),
+        }
+    };
+    if !exchange(&mut node, &mut t) {
+        return;
+    }
+    judge(rep, &node, "after a clean peer delay exchange (listening)");
+    if make_slave(&mut node, 0, &mut remote).is_err() || node.port_state(0) != PortState::Slave {
+        return;
+    }
+    judge(rep, &node, "after becoming slave");
+    if !exchange(&mut node, &mut t) {
+        return;
+    }
+    judge(rep, &node, "after a peer delay exchange as slave");
+    // the parent is lost: master (or listening on a slave-only instance)
+    if node.call(0, Call::AnnounceReceiptTimer).is_err() || node.port_state(0) == PortState::Slave {
+        return;
+    }
+    judge(rep, &node, "right after the port left the slave state (announce receipt timeout)");
+    let _ = node.bmca();
+    judge(rep, &node, "after the following BMCA run");
+}
+
 pub fn check_state(rep: &mut Report, ctx: &mut Ctx, st: &ObservableState, label: &str) {
     let replay = json!({"label": label, "state": serde_json::to_value(st).unwrap_or(json!(null))});
     // (2) the JSON hop
@@ -254,7 +347,7 @@ fn state_of(node: &Node, contribution: Option<FilterEstimate>, prog: ProgramData
 
 pub fn run(rep: &mut Report, tier: &str, seed: u64, shard: (u32, u32), _replay: Option<&str>) {
     rep.rule = "instance states taken from live simulated instances through the public getters the daemon uses (grandmaster, slave with servo estimates, 1-8-port boundary clocks, P2P ports with measured link delay, Faulty/Passive/Listening ports, path lists 0..128, every time-properties combination) plus synthetic extremes (offsets/delays up to +-10 s and beyond 64 bits of 2^-32 ns, negative values), served to the real exporter over a harness observation socket; the HTTP response is parsed independently and every metric compared; distinct = distinct JSON states".into();
-    rep.require(&["aborted_scrape", "json_roundtrip", "http_response", "exposition_parsed", "metric_compared"]);
+    rep.require(&["aborted_scrape", "p2p_mean_link_delay_checked", "json_roundtrip", "http_response", "exposition_parsed", "metric_compared"]);
     let mut ctx = match start_ctx(&format!("c19-{}", shard.0)) {
         Ok(c) => c,
         Err(e) => {
@@ -380,6 +473,7 @@ pub fn run(rep: &mut Report, tier: &str, seed: u64, shard: (u32, u32), _replay: 
         if i % 6 == 1 {
             // the previous scrape was aborted by its client: this one must be unaffected
             aborted_scrape(rep, &mut ctx, &st);
+            p2p_link_delay_persistence(rep, rng.gen());
         }
         check_state(rep, &mut ctx, &st, &format!("scenario {scenario}, {n_ports} ports"));
         rep.evaluations += 1;
